@@ -185,7 +185,8 @@ class Report:
             if cls in self._seen_cls:
                 self.sat_same_class += 1
                 return 'sat'
-            if self._failed_cls.get(cls, 0) >= 4:
+            is_robust = robust is not None and len(models) == 2 and k == 0      # a model of the with-margin query: always worth a replay
+            if self._failed_cls.get(cls, 0) >= 4 and not is_robust:
                 break
             ok, out = self.replay(name, c)
             last = {'inputs': _short(c.get('inputs')), 'output': out.strip()[-300:]}
